@@ -48,15 +48,23 @@ SrcBody(id) ==
       [] id = 10 -> <<Inc(LS(NT.n3)), T(<<33>>), Apply("upper", <<>>, <<PrintS(Var("x"))>>)>>
       [] id = 11 -> <<T(<<108>>), PrintS(Var("x")), IfElse(Test(Var("x"), "defined", <<>>, FALSE), <<T(<<100>>)>>, <<T(<<117>>)>>),
                       T(<<60>>), Block("b", <<T(<<76>>)>>), T(<<62>>)>>
+      \* sandboxed include (every engine has a policy that allows upper but not lower)
+      [] id = 13 -> <<T(<<91>>), Include(LS(NT.n2), Lit(Null), FALSE, FALSE, FALSE, TRUE), T(<<93>>)>>
+      [] id = 14 -> <<T(<<108>>), PrintS(Filt("lower", Var("x"), <<>>)), PrintS(Filt("upper", Var("x"), <<>>))>>
+      \* identifiers that differ only in case
+      [] id = 15 -> <<PrintS(Var("Xv")), T(<<124>>), PrintS(Var("xV")), T(<<124>>), PrintS(Attr(Var("m"), "Ab"))>>
+      [] id = 16 -> <<PrintS(Var("xv")), T(<<124>>), PrintS(Var("XV")), T(<<124>>), PrintS(Attr(Var("m"), "aB"))>>
       [] id = 12 -> <<Extends(Var("p")), Block("b", <<T(<<90>>), PrintS(Var("x"))>>)>>       \* dynamic parent: depends on the context
 SrcPieces(id) == IF id = 3 THEN RawSyntaxError ELSE Source(SrcBody(id), LMin)
-AllSrc == 1..12
+AllSrc == 1..16
 IsSyntaxError(id) == id = 3
 RefersToN2 == {5, 6, 8}
-SrcFor(n) == IF n = "n1" THEN {1, 2, 3, 4, 5, 6, 8, 10, 12} ELSE {1, 3, 4, 7, 9, 10}     \* no recursion: only n1 refers to n2
+SrcFor(n) == IF n = "n1" THEN {1, 2, 3, 4, 5, 6, 8, 10, 12, 13, 14, 15, 16} ELSE {1, 3, 4, 7, 9, 10, 14, 15, 16}     \* no recursion: only n1 refers to n2
 LoaderSrc == 11                   \* content of n3 in the loader
 CtxIds == {1, 2}
-CtxOf(c) == IF c = 1 THEN ("x" :> VS(<<113>>)) @@ ("p" :> VS(NT.n2)) ELSE ("p" :> VS(NT.n3))
+CaseVars == ("Xv" :> VS(<<65>>)) @@ ("xV" :> VS(<<66>>)) @@ ("xv" :> VS(<<67>>)) @@ ("XV" :> VS(<<68>>))
+            @@ ("m" :> VM(<<VS(<<65, 98>>), VS(<<97, 66>>)>>, <<VI(1), VI(2)>>))
+CtxOf(c) == IF c = 1 THEN ("x" :> VS(<<113>>)) @@ ("p" :> VS(NT.n2)) @@ CaseVars ELSE ("p" :> VS(NT.n3)) @@ CaseVars
 
 \* ---- operations -------------------------------------------------------------------------
 \* the key a render result may depend on: logical state only
@@ -136,7 +144,8 @@ NoStaleRender == \A i \in 1..Len(hist) : hist[i].op \in {"render", "renderh"} =>
 Header == [hdr |-> TRUE, prop |-> "C01",
            sources |-> [id \in AllSrc |-> SrcPieces(id)],       \* printed as a JSON array: index id-1
            ctxs |-> [c \in CtxIds |-> CtxOf(c)],
-           loader |-> [n3 |-> LoaderSrc]]
+           loader |-> [n3 |-> LoaderSrc],
+           policy |-> [filters |-> {"upper", "default", "escape"}, functions |-> {"parent", "range"}]]
 Complete == Len(hist) = MaxLen /\ hist[MaxLen].op \in {"render", "renderh"}
 OpTags == {hist[i].op : i \in 1..Len(hist)}
 ASSUME PrintT(ToJson(Header))
